@@ -139,6 +139,32 @@ def r20a(model, ctx):
               "`s` values must be emitted byte by byte, most significant byte first", f"{RTLIL}:{fp.lineno}")
 
 
+def _always_groups(model):
+    """named groups of Format._FORMAT_SPEC_PATTERN that take part in every match (top-level, not optional): read off the parsed
+    regular expression (re._parser), nothing is matched"""
+    import re
+    cls = model.cls(f"{AST_PY}::Format")
+    pat = None
+    for st in ast.walk(cls):
+        if isinstance(st, ast.Assign) and unparse(st.targets[0]) == "_FORMAT_SPEC_PATTERN" and isinstance(st.value, ast.Call) and \
+                st.value.args and isinstance(st.value.args[0], ast.Constant) and isinstance(st.value.args[0].value, str):
+            pat = st.value.args[0].value
+            flags = re.VERBOSE if "VERBOSE" in unparse(st.value) or "re.X" in unparse(st.value) else 0
+    if pat is None:
+        return set()
+    try:
+        parser = re._parser
+    except AttributeError:      # pragma: no cover (older interpreters)
+        import sre_parse as parser
+    tree = parser.parse(pat, flags)
+    names = {v: k for k, v in tree.state.groupdict.items()}
+    out = set()
+    for op, av in tree:
+        if str(op) == "SUBPATTERN" and av[0] in names:
+            out.add(names[av[0]])
+    return out
+
+
 def _format_spec_rejections(model, ctx, R):
     fp = model.func(f"{AST_PY}::Format._parse_format_spec")
 
@@ -159,8 +185,22 @@ def _format_spec_rejections(model, ctx, R):
     # the match object is a local; conditions are reported in terms of it
     msrc = [unparse(st.value) for st in fp.body if isinstance(st, ast.Assign) and unparse(st.targets[0]) == "match"]
     need(len(msrc) == 1, "_parse_format_spec: the `match = ...fullmatch(spec)` binding was not found")
+    always = _always_groups(model)
+
+    def canon_test(t):
+        """a group that takes part in every match is a str: its truthiness is `!= ''`"""
+        neg = False
+        while t.startswith("not "):
+            t, neg = t[4:], not neg
+        for g_ in always:
+            if t == f"match['{g_}'] != ''":
+                t = f"match['{g_}']"
+            elif t == f"match['{g_}'] == ''":
+                t, neg = f"match['{g_}']", not neg
+        return ("not " if neg else "") + t
+
     def show(n, _m=msrc[0]):
-        return unparse(n).replace(_m, "match")
+        return canon_test(unparse(n).replace(_m, "match"))
     raising = []        # for every rejecting path: the tests that were true on it
     for p in rpaths:
         raising.append({show(t) for t, pol in p.conds if pol} | {"not " + show(t) for t, pol in p.conds if not pol})
@@ -170,6 +210,7 @@ def _format_spec_rejections(model, ctx, R):
 
     def rejected_under(w):
         # a path whose *last* true test is w (the test that raises)
+        w = canon_test(w)
         for p in rpaths:
             pos = [show(t) if pol else "not " + show(t) for t, pol in p.conds]
             if pos and pos[-1] == w:
@@ -183,7 +224,7 @@ def _format_spec_rejections(model, ctx, R):
           "match['grouping'] is not None"]
     okcs = True
     for w in CS:
-        hit = [p for p in rpaths if [show(t) if pol else "not " + show(t) for t, pol in p.conds][-1:] == [w]]
+        hit = [p for p in rpaths if [show(t) if pol else "not " + show(t) for t, pol in p.conds][-1:] == [canon_test(w)]]
         okcs = okcs and bool(hit) and all(("match['type'] in ('c', 's')", True) in {(show(t), pol) for t, pol in p.conds} for p in hit)
     ctx.check(okcs, R, "_parse_format_spec:c/s-block", "character/string restrictions apply to both c and s",
               "the restrictions on signedness, alignment, alternate form, zero fill, sign and grouping must apply to both `c` and `s`",
